@@ -6,6 +6,7 @@
 #include <map>
 #include "icase.h"
 #include "optable.h"
+#include "imodel.h"
 #include "ref_alu.h"
 #include "vf.h"
 
@@ -109,84 +110,10 @@ const std::vector<std::vector<uint16_t>>& strata() {
     return g;
 }
 
-bool cond_pass(const State& s, unsigned c) {
-    switch (c) {
-    case 0:
-        return true;
-    case 1:
-        return s[flat::F_fz] == 1;
-    case 2:
-        return s[flat::F_fz] == 0;
-    case 3:
-        return s[flat::F_fz] == 0 && s[flat::F_fm] == 0;
-    case 4:
-        return s[flat::F_fm] == 0;
-    case 5:
-        return s[flat::F_fm] == 1;
-    case 6:
-        return s[flat::F_fm] == 1 || s[flat::F_fz] == 1;
-    case 7:
-        return s[flat::F_fn] == 0;
-    case 8:
-        return s[flat::F_fc0] == 1;
-    case 9:
-        return s[flat::F_fv] == 1;
-    case 10:
-        return s[flat::F_fe] == 1;
-    case 11:
-        return s[flat::F_flm] == 1 || s[flat::F_fvl] == 1;
-    case 12:
-        return s[flat::F_fr] == 0;
-    case 13:
-        return s[flat::F_iu + 0] == 0;
-    case 14:
-        return s[flat::F_iu + 0] == 1;
-    default:
-        return s[flat::F_iu + 1] == 1;
-    }
-}
+using imodel::cond_pass;
 
-struct Model {
-    const icase::ICase& c;
-    State e; // expected state
-    bool skip = false;
-    std::string cls;
-    explicit Model(const icase::ICase& cc) : c(cc), e(cc.st) {}
-
-    uint16_t mem(uint16_t a) {
-        if (a == 0xFFFF)
-            skip = true; // the one MMIO cell of this core
-        uint32_t w = 0x20000u + a;
-        for (auto it = c.pokes.rbegin(); it != c.pokes.rend(); ++it)
-            if ((it->addr & 0x3FFFF) == w)
-                return it->val;
-        uint32_t pc = (uint32_t)c.st[flat::F_pc];
-        if (w == pc)
-            return c.opcode;
-        if (w == pc + 1)
-            return c.expansion;
-        return icase::base_word(w);
-    }
-    // [Rn] with post-modification, linear stepping only (the generator pins modulo / bit reversal / end-pointer off)
-    uint16_t rn_access(unsigned n, unsigned step) {
-        uint16_t a = (uint16_t)e[flat::F_r + n];
-        int d = 0;
-        switch (step) {
-        case 1:
-            d = 1;
-            break;
-        case 2:
-            d = -1;
-            break;
-        case 3: {
-            unsigned sv = (unsigned)(n < 4 ? e[flat::F_stepi] : e[flat::F_stepj]) & 0x7F;
-            d = (sv & 0x40) ? (int)sv - 128 : (int)sv;
-            break;
-        }
-        }
-        e[flat::F_r + n] = (uint16_t)(a + d);
-        return mem(a);
-    }
+struct Model : imodel::Model {
+    explicit Model(const icase::ICase& cc) : imodel::Model(cc) {}
     // operand extension per operation
     int64_t extend(AlmOp op, uint16_t v) {
         switch (op) {
